@@ -78,23 +78,31 @@ def run_unit(ctx, unit, twin=False, variants=frozenset(), extra=(), rlimit=None,
         att2 = vrun.attribute(meta, res2)
         if not att2.undecided:
             res, att = res2, att2
-    if att.failed and not twin and not extra and not att.fatal:
+    unattr = [m for m in att.fatal if m.startswith('unattributed verification failure')]
+    if (att.failed or unattr) and not extra and len(unattr) == len(att.fatal):
         # A failed obligation is believed only if it fails under two more solver seeds as well: a proof found under any
-        # seed is a proof (the solver is sound whatever its seed), so an unstable query cannot raise an alarm.
+        # seed is a proof (the solver is sound whatever its seed), so an unstable query cannot raise an alarm. The same
+        # holds for an unlabelled model lemma (no obligation of its own): it only counts if it fails under every seed.
         import concurrent.futures
+
         def rerun(k):
             ex = ('--smt-option', 'smt.random_seed=%d' % (ctx.seed + 100 + k), '--rlimit', '20')
             r2 = vrun.run_verus(path, extra=ex, use_cache=ctx.use_cache)
-            return vrun.attribute(meta, r2)
+            return r2, vrun.attribute(meta, r2)
         with concurrent.futures.ThreadPoolExecutor(max_workers=2) as pool:
-            atts = list(pool.map(rerun, (1, 2)))
-        for a2 in atts:
-            if a2.fatal or a2.undecided:
+            reruns = list(pool.map(rerun, (1, 2)))
+        for (r2, a2) in reruns:
+            if a2.undecided or [m for m in a2.fatal if not m.startswith('unattributed verification failure')]:
                 continue
+            if unattr and not a2.fatal:
+                ctx.lines.append('note: %s: a model lemma failed under the default solver seed and is proved under another seed (unstable query)' % u.name)
+                att.fatal = []
+                unattr = []
             for oid in list(att.failed):
                 if oid not in a2.failed:
-                    ctx.lines.append('note: %s failed under the default solver seed but is proved under another seed (unstable query, not a verdict against the code)' % oid)
-                    del att.failed[oid]
+                    if not twin:
+                        ctx.lines.append('note: %s failed under the default solver seed but is proved under another seed (unstable query, not a verdict against the code)' % oid)
+                        del att.failed[oid]
     ctx.unit_runs[key] = (u, meta, res, att)
     ctx.solver_ms += (res.get('smt_ms') or 0)
     if res.get('cmd') and res['cmd'] not in ctx.checker_cmds:
